@@ -16,9 +16,8 @@ What is transcribed (generator.py, as of the `fix:` commits listed in the lead's
 * `exitIfExpression` / `exitIfEquation`: fold of `if_else` from the last branch (`foldFromLast`);
 * `exitEquation`: `vertcat` of a tuple, truncation of a call's outputs, `lhs - rhs`;
 * `ForLoop.__init__`: `np.arange(start, stop ± 1, step)` (`arangeCode`), `exitForEquation`: the body
-  mapped over the values and transposed (`bodyMajor` layout), empty loop ↦ no entries, and the
-  `Degenerate map operation` crash of `register_indexed_symbol` for an empty loop with a computed
-  subscript;
+  mapped over the values and transposed (`bodyMajor` layout), empty loop ↦ no entries (since 8f76abc
+  also when the body has computed subscripts: `register_indexed_symbol` skips its index map then);
 * `get_function`, `exitAssignmentStatement`, `exitIfStatement`, `exitForStatement`: symbolic execution
   by sequential substitution (`applyAssigns`, `mergeIf`, `pick` of the mapped right-hand sides).
 -/
@@ -180,7 +179,6 @@ inductive GenErr
   | unknownFunction (f : String)        -- `Exception("Unknown function …")`
   | attributeError (m : Meth)           -- `getattr(MX, name)` on a missing method
   | assertion (what : String)           -- a failed `assert` / explicit `raise Exception`
-  | degenerateMap                       -- CasADi: "Degenerate map operation" (map over 0 values)
   | keyError (x : String)
   | zeroStep                            -- `np.arange(…, 0)`
   deriving DecidableEq, Repr, Inhabited
@@ -285,39 +283,6 @@ def genBlocks (P : Prims K) (o : Opts) (T : FTab K) : List (List (SEq K)) → G 
     let rest ← genBlocks P o T bs
     .ok (.vcat (CTerms.ofList ts) :: rest)
 
-def idxMentions (i : String) : IdxE → Bool
-  | .lit _ => false
-  | .var x => x == i
-  | .add a b | .sub a b | .mul a b => idxMentions i a || idxMentions i b
-  | .neg a => idxMentions i a
-
-/-- A subscript that depends on the loop index and is not the bare index (`index_expr is not
-    self.index_variable`). -/
-def subComputed (i : String) : Sub → Bool
-  | .at (.var _) => false
-  | .at e => idxMentions i e
-  | .range _ _ _ => false
-
-mutual
-def exprComputedSub (i : String) : MExpr K → Bool
-  | .num _ => false
-  | .ref _ subs => subs.any (subComputed i)
-  | .idx _ => false
-  | .un _ a => exprComputedSub i a
-  | .bin _ a b => exprComputedSub i a || exprComputedSub i b
-  | .ife bs => brComputedSub i bs
-  | .call _ args => exprsComputedSub i args
-def exprsComputedSub (i : String) : MExprs K → Bool
-  | .nil => false
-  | .cons e es => exprComputedSub i e || exprsComputedSub i es
-def brComputedSub (i : String) : MBranches K → Bool
-  | .last e => exprComputedSub i e
-  | .cons c e rest => exprComputedSub i c || exprComputedSub i e || brComputedSub i rest
-end
-
-def seqComputedSub (i : String) (e : SEq K) : Bool :=
-  e.ls.any (fun x => exprComputedSub i x) || exprComputedSub i e.r
-
 def sameLengths (xs : List (List α)) : Bool :=
   match xs with
   | [] => true
@@ -337,7 +302,6 @@ def genMEq (P : Prims K) (o : Opts) (T : FTab K) (ienv : String → Option Int) 
       | none => .error (.assertion "get_integer")
     if step = 0 then .error .zeroStep else
     let vals := arangeCode start step hi
-    if vals.isEmpty ∧ body.any (seqComputedSub i) then .error .degenerateMap else
     let ts ← genBlock P o T body
     if vals.isEmpty then .ok (.vcat .nil)
     else .ok (.map o.mapMode i vals true (.vcat (CTerms.ofList ts)))
